@@ -274,6 +274,12 @@ def runModel (line : String) : String :=
   | ("be" :: _) :: _ => match parseBe its with | some c => beModel c | none => "BAD_CASE"
   | ["sock", _, sc] :: _ => sockModel sc
   | ("fl" :: _) :: _ => match parseFl its with | some (a, b, ps) => flModel a b ps | none => "BAD_CASE"
+  | ["flx", a, b, _, _] :: _ =>
+    -- the flusher's context is cancelled while backend j is being handed aggregator i's map: every (aggregator,
+    -- backend) pair is still handed the map and, once all have called back, the flusher returns
+    (match a.toNat?, b.toNat? with
+     | some a, some b => s!"reg={a * b}/{a * b} returned=1"
+     | _, _ => "BAD_CASE")
   | _ => "BAD_CASE"
 
 def spec (caseLine impl : String) : String :=
@@ -283,6 +289,12 @@ def spec (caseLine impl : String) : String :=
   | ("be" :: _) :: _ => match parseBe its with | some c => beSpec c impl | none => "BAD_CASE"
   | ["sock", _, sc] :: _ => sockSpec sc impl
   | ("fl" :: _) :: _ => match parseFl its with | some (a, b, ps) => flSpec a b ps impl | none => "BAD_CASE"
+  | ["flx", a, b, _, _] :: _ =>
+    (match a.toNat?, b.toNat? with
+     | some a, some b =>
+       if impl = s!"reg={a * b}/{a * b} returned=1" then "ok"
+       else "FAIL flusher-blocked after a cancellation in mid-flush not every backend was asked, or the flusher never returned: " ++ impl
+     | _, _ => "BAD_CASE")
   | _ => "BAD_CASE"
 
 def main (args : List String) : IO UInt32 := do
